@@ -28,3 +28,33 @@ Definition check_ecases (f g : ecase -> bool) (l : list ecase) : list (Z * Z * Z
     | x :: r => (i, b2z (f x), b2z (g x)) :: go (i + 1)%Z r
     end in
   List.filter (fun t => negb (Z.eqb (snd (fst t)) 1%Z && Z.eqb (snd t) 1%Z)) (go 0%Z l).
+
+(** ** change of the client datamodel: the datamodel update of a restarted client *)
+From Hermes Require Import Model.ClientEvo.
+Record rcase := RCase {
+  rm_cfg : ccfg;              (* the new client configuration *)
+  rm_remote : world;          (* expected-state remote cache left by the previous life *)
+  rm_local : world;           (* local cache left by the previous life (queue empty: live = expected) *)
+  rm_calls : list call;       (* handler invocations of the first loop iteration of the new life *)
+  rm_after : world            (* local cache after that iteration *)
+}.
+Definition healthy (r l : world) : cstate := CState r ∅ r ∅ l ∅ l ∅ [] 0 [] 0 false false false false [].
+(** the order of the differences inside one type is the code's business: calls compared as sets *)
+Definition same_calls (ts : N) (a b : list call) : bool :=
+  Nat.eqb (length a) (length b) && forallb (fun x => existsb (call_eqb ts x) b) a && forallb (fun y => existsb (call_eqb ts y) a) b.
+Definition corr_rcase (x : rcase) : bool :=
+  let st := remap (rm_cfg x) (fun _ => HOk) (healthy (rm_remote x) (rm_local x)) in
+  world_eqb (l_live st) (rm_after x) && same_calls (cc_ts (rm_cfg x)) (calls st) (rm_calls x) && negb (exc st).
+(** oracle on the observation alone: after the update the local data are the projection of the
+    remote cache under the new mapping, and no object got more than one call *)
+Definition c17_rcase (x : rcase) : bool :=
+  world_eqb (rm_after x) (project (rm_cfg x) (rm_remote x))
+  && Nat.eqb (length (remove_dups (map (fun cl => (cl_t cl, cl_k cl)) (rm_calls x)))) (length (rm_calls x))
+  && forallb (fun cl => hres_eqb (cl_out cl) HOk) (rm_calls x).
+Definition check_rcases (f g : rcase -> bool) (l : list rcase) : list (Z * Z * Z) :=
+  let fix go (i : Z) (l : list rcase) :=
+    match l with
+    | [] => []
+    | x :: r => (i, b2z (f x), b2z (g x)) :: go (i + 1)%Z r
+    end in
+  List.filter (fun t => negb (Z.eqb (snd (fst t)) 1%Z && Z.eqb (snd t) 1%Z)) (go 0%Z l).
